@@ -1,4 +1,5 @@
 import CrabProofs.Lemmas.CrawlCtrlMain
+import CrabProofs.Lemmas.CrawlCtrlSpec
 import CrabProofs.Props.C18Crawler
 
 /-!
@@ -41,10 +42,13 @@ Proved, for every well-formed CFG (no size bound):
 * `C18.crawler_ctrl_sound`: the full statement for the repaired code: model of the crawler run
   with the model of cdg.hpp, every well-formed CFG (also with blocks that cannot reach the exit
   or without exit block).
-* `C18.crawler_ctrl_sound_spec_graph_Statement`/`_partial`: the OLD statement
-  (`C18.crawler_ctrl_sound_Statement`) takes the graph `P.cdgSpec x` of the definition (computed
-  with an iterative post-dominator table) as input, not the graph of the code; it follows from the
-  partial theorem whenever that graph passes `isCdgOK`.
+* `C18.crawler_ctrl_sound_old`: the OLD full statement `C18.crawler_ctrl_sound_Statement` (false
+  for `CrawlVariant.cur`: `C18.crawler_ctrl_counterexample`) HOLDS for the repaired variant.  It
+  takes the graph `P.cdgSpec x` of the definition as input (Ferrante/Ottenstein/Warren with the
+  iterative post-dominator table `Prog.pdom`) and is restricted to CFGs all of whose blocks reach
+  the exit; `C18.pdom_table_correct`: there the table holds exactly the post-dominators, hence the
+  graph is complete (`C18.cdg_spec_ok`).  `C18.crawler_ctrl_sound` is the statement about the code:
+  graph of cdg.hpp, every CFG.
 * Defect of the real code found with the tie (M) of `Driver/CrawlCH.lean`:
   `C18.cdg_impl_counterexample` (dominance.hpp initialises the DFS numbers with 0).
 -/
@@ -157,13 +161,26 @@ theorem C18.crawler_ctrl_sound_any_graph (P : Prog) (g : Cdg) (order : List Labe
     (C18.crawler_model_isDataSol CrawlVariant.fixed P g order M hwf hord h)
     (C18.crawler_model_isCtrlSol P g order M hwf hord h) hg a l y hl hy
 
-/-- the OLD statement (`C18.crawler_ctrl_sound_Statement CrawlVariant.fixed`, graph of the
-    definition as input) restricted to the programs on which that graph passes the test -/
-theorem C18.crawler_ctrl_sound_spec_graph_partial (P : Prog) (x : Label) (order : List Label) (M : InMap)
-    (hwf : P.wf = true) (hord : ∀ l, l ∈ P.labels → l ∈ order) (hg : isCdgOK P (P.cdgSpec x) = true)
-    (h : crawl CrawlVariant.fixed P (P.cdgSpec x) order = some M)
-    (a : AId) (l : Label) (y : Var) (hl : l ∈ P.labels) (hy : y ∉ (M.get l).get a) : ¬ RelevantCtrl P a l 0 y :=
-  C18.crawler_ctrl_sound_any_graph P (P.cdgSpec x) order M hwf hord hg h a l y hl hy
+/-- the iterative post-dominator table of the specification (`Prog.pdom`, `|blocks| + 2` rounds)
+    is correct when every block reaches the exit -/
+theorem C18.pdom_table_correct (P : Prog) (hwf : P.wf = true) (x n y : Label) (hx : P.exit = some x)
+    (hall : ∀ l, l ∈ P.labels → l ∈ P.coReachable x) (hn : n ∈ P.labels) (hy : y ∈ P.labels) :
+    (P.pdom x n).contains y = true ↔ PDom P x y n :=
+  pdom_table_iff (WFp.of_wf hwf) ((WFp.of_wf hwf).exit x hx)
+    (fun l hl => (coReachable_iff (WFp.of_wf hwf) ((WFp.of_wf hwf).exit x hx)).mp (hall l hl)) hn hy
+
+/-- the graph of the definition passes the test when every block reaches the exit -/
+theorem C18.cdg_spec_ok (P : Prog) (hwf : P.wf = true) (x : Label) (hx : P.exit = some x)
+    (hall : ∀ l, l ∈ P.labels → l ∈ P.coReachable x) : isCdgOK P (P.cdgSpec x) = true :=
+  isCdgOK_of_complete (WFp.of_wf hwf) (cdgSpec_complete (WFp.of_wf hwf) hx
+    (fun l hl => (coReachable_iff (WFp.of_wf hwf) ((WFp.of_wf hwf).exit x hx)).mp (hall l hl)))
+
+/-- THE OLD FULL STATEMENT (C18Crawler.lean; false for the tree before the repairs) holds for the
+    repaired crawler -/
+theorem C18.crawler_ctrl_sound_old : C18.crawler_ctrl_sound_Statement CrawlVariant.fixed := by
+  intro P x order M hwf hx hall hord h a l y hl hy
+  exact C18.crawler_ctrl_sound_any_graph P (P.cdgSpec x) order M hwf hord (C18.cdg_spec_ok P hwf x hx hall) h
+    a l y hl hy
 
 /-! ### non-vacuity -/
 
